@@ -1,12 +1,247 @@
 import ScryerModel.Model.Dcg
 import ScryerModel.Proofs.Solve
-/-! C39 — DCG translation preserves grammar semantics (work in progress). -/
+import ScryerModel.Proofs.SolveLaws
+import ScryerModel.Proofs.Dcg
+/-!
+# C39 — DCG translation preserves grammar semantics
+
+`Dcg.tr` mirrors `dcg_body/4` of `src/lib/dcgs.pl` clause by clause (Model/Dcg.lean); `Dcg.den` is the
+direct semantics of a grammar body between two positions: an answer sequence (answers in order,
+"the rule was cut", uncaught ball) defined by structural recursion on the body, where terminals
+are unifications of the position terms, `{}` and `!` leave the position alone and non-terminals are
+calls into the program.  `Solve.solve` is the reference interpreter of C07.
+
+The core theorem: for EVERY body (any nesting of terminals, strings, non-terminals with arguments,
+`{}`, `!`, `,`, `;`, `|`, `->`, `call//N`) and all position terms, solving the translated goal gives
+exactly the result of the direct semantics — same answers in the same order, same cut flag, same
+ball — and the other way round.
+-/
 namespace Scryer.Dcg
 open Scryer Scryer.Solve
 
-/-- A terminal list is translated to ONE unification of the input position with the terminals
-in front of the output position. -/
-theorem C39_terminals_translation (ts : List Term) (S0 S : Term) :
-    tr (.terms ts) S0 S = .ok (.str "=" [S0, Term.ofList ts S]) := rfl
+/-! ## The direct semantics is well defined -/
+
+/-- Fuel monotonicity of the direct semantics. -/
+theorem C39_den_fuel_mono (prog : Prog) (b : Body) (S0 S : Term) (s : St) (n k : Nat)
+    (h : (den n prog b S0 S s).oof = false) :
+    den (n + k) prog b S0 S s = den n prog b S0 S s :=
+  den_mono prog b S0 S s n k h
+
+/-- A body between two positions in a state has at most one result. -/
+theorem C39_den_result_unique (prog : Prog) (b : Body) (S0 S : Term) (s : St) (r1 r2 : Res)
+    (h1 : DRuns prog b S0 S s r1) (h2 : DRuns prog b S0 S s r2) : r1 = r2 := by
+  obtain ⟨n1, e1, o1⟩ := h1
+  obtain ⟨n2, e2, o2⟩ := h2
+  have a := den_mono prog b S0 S s n1 n2 (by rw [e1]; exact o1)
+  have c := den_mono prog b S0 S s n2 n1 (by rw [e2]; exact o2)
+  rw [Nat.add_comm] at c
+  rw [← e1, ← e2, ← a, ← c]
+
+/-! ## The translation preserves the semantics -/
+
+/-- CORE THEOREM.  For every grammar body `b` that `dcg_body/4` translates (to `g`) and all position
+terms `S0`, `S` and every state: the reference interpreter runs `g` to the result `r` iff the direct
+semantics of `b` between `S0` and `S` is `r` (all answers in order, the cut flag — `!` cuts the
+clause the body belongs to —, the uncaught ball).  `b.ok` only excludes an alternative whose left
+side is the non-terminal named `'->'` without arguments (see `C39_why_ok` below). -/
+theorem C39_translation_preserves_semantics (prog : Prog) (b : Body) (S0 S g : Term) (s : St)
+    (r : Res) (htr : tr b S0 S = .ok g) (hok : b.ok = true) :
+    Runs prog g s r ↔ DRuns prog b S0 S s r := by
+  obtain ⟨hA, hB⟩ := corr prog b S0 S s g htr hok
+  constructor
+  · rintro ⟨n, e, o⟩
+    exact ⟨n, by rw [hA n (by rw [e]; exact o)]; exact e, o⟩
+  · rintro ⟨n, e, o⟩
+    exact ⟨n + need b, by rw [hB n (need b) (by rw [e]; exact o) (Nat.le_refl _)]; exact e, o⟩
+
+/-- The same with explicit fuel: whenever one side terminates within its fuel, the other side gives
+the same result (the interpreter needs at most `need b` more units for the control structure of the
+translated body). -/
+theorem C39_translation_fuel (prog : Prog) (b : Body) (S0 S g : Term) (s : St)
+    (htr : tr b S0 S = .ok g) (hok : b.ok = true) :
+    (∀ n, (solve n prog g s).oof = false → den n prog b S0 S s = solve n prog g s) ∧
+    (∀ n k, (den n prog b S0 S s).oof = false → need b ≤ k →
+      solve (n + k) prog g s = den n prog b S0 S s) :=
+  corr prog b S0 S s g htr hok
+
+/-- Why `b.ok` is needed: the non-terminal `'->'` becomes the goal `'->'(S0,S)`, and as the left side
+of an alternative the interpreter (and the WAM compiler) read `('->'(S0,S) ; E)` as an
+if-then-else. -/
+theorem C39_why_ok (S0 S e : Term) :
+    tr (.nonterm (.atom "->")) S0 S = .ok (.str "->" [S0, S]) ∧
+    classify (disjG (.str "->" [S0, S]) e) = .ite S0 S e := ⟨rfl, rfl⟩
+
+/-! ## What the translation does with each construct -/
+
+/-- Terminals (a list or a string, which is a list of characters) become ONE unification of the
+input position with the terminals in front of the output position; it is an ordinary body goal,
+placed where the terminal stands (after the goals in front of it), never moved into the head. -/
+theorem C39_terminals (ts : List Term) (S0 S : Term) (n : Nat) (prog : Prog) (s : St) :
+    tr (.terms ts) S0 S = .ok (.str "=" [S0, Term.ofList ts S]) ∧
+    den n prog (.terms ts) S0 S s = unifRes n s S0 (Term.ofList ts S) := ⟨rfl, by simp only [den]⟩
+
+/-- A non-terminal followed by terminals: the call comes first, the terminals are matched by
+unification AFTER the call, on the call's output position. -/
+theorem C39_terminal_after_call (t : Term) (ts : List Term) (m : String) (S0 S : Term) :
+    tr (.seq (.nonterm t) (.terms ts) m) S0 S =
+      .ok (.str "," [nonTerminal t S0 (.var m), .str "=" [.var m, Term.ofList ts S]]) := rfl
+
+/-- A non-terminal gets the two positions as additional LAST arguments; `call//N` too. -/
+theorem C39_nonterminal_two_more_arguments (f : String) (args : List Term) (S0 S : Term) :
+    tr (.nonterm (.str f args)) S0 S = .ok (.str f (args ++ [S0, S])) ∧
+    tr (.nonterm (.atom f)) S0 S = .ok (.str f [S0, S]) ∧
+    (∀ c, tr (.call1 c) S0 S = .ok (.str "call" [c, S0, S])) := ⟨rfl, rfl, fun _ => rfl⟩
+
+/-- `call//N` runs the continuation with its `N` arguments and the two positions, opaque to cut. -/
+theorem C39_callN (prog : Prog) (n : Nat) (c : Term) (extra : List Term) (S0 S : Term) (s : St)
+    (h : (extra ++ [S0, S]).length ≤ 7) :
+    ∃ g, tr (.nonterm (.str "call" (c :: extra))) S0 S = .ok g ∧
+      solve (n + 1) prog g s = callGoal (solve n prog) n s c (extra ++ [S0, S]) ∧
+      (solve (n + 1) prog g s).cut = false := by
+  refine ⟨.str "call" (c :: (extra ++ [S0, S])), rfl, ?_, ?_⟩
+  · simp only [solve, step, classify, h, if_true]
+  · simp only [solve, step, classify, h, if_true]
+    exact callGoal_cut ..
+
+/-- `{G}` does not touch the lists: its answers between `S0` and `S` are the answers of `G`
+(run in place, so a cut inside `{}` cuts the rule) under which `S0` and `S` are the same position. -/
+theorem C39_brace (prog : Prog) (n : Nat) (g S0 S : Term) (s : St) :
+    tr (.brace g) S0 S = .ok (.str "," [g, .str "=" [S0, S]]) ∧
+    den n prog (.brace g) S0 S s = conjRes (solve n prog g s) (fun s' => unifRes n s' S0 S) :=
+  ⟨rfl, by simp only [den]⟩
+
+/-- `!` does not move the position and reports the cut to the clause the body belongs to: the
+result of `!` between `S0` and `S` carries the cut flag. -/
+theorem C39_cut (prog : Prog) (n : Nat) (S0 S : Term) (s : St)
+    (h : (den n prog .cut S0 S s).oof = false) :
+    tr .cut S0 S = .ok (.str "," [.atom "!", .str "=" [S0, S]]) ∧
+    (den n prog .cut S0 S s).cut = true ∧
+    (den n prog .cut S0 S s).sols = (unifRes n s S0 S).sols := by
+  refine ⟨rfl, ?_, ?_⟩
+  · simp only [den, cutRes] at h ⊢
+    split <;> simp_all
+  · simp only [den, cutRes] at h ⊢
+    split <;> simp_all
+
+/-- … and the cut is still there after the rest of the body ran (unless a ball is raised). -/
+theorem C39_cut_then_rest (prog : Prog) (n : Nat) (b : Body) (m : String) (S0 S : Term) (s : St)
+    (h : (den n prog (.seq .cut b m) S0 S s).oof = false)
+    (he : (den n prog (.seq .cut b m) S0 S s).exc = none) :
+    (den n prog (.seq .cut b m) S0 S s).cut = true := by
+  simp only [den] at h he ⊢
+  refine conjRes_cut_flag _ _ (fun ho => ?_) h he
+  simp only [cutRes] at ho ⊢
+  split <;> simp_all
+
+/-- The clause of a rule whose body result carries the cut flag is the last clause tried: `!` in a
+grammar rule prunes the remaining rules of the non-terminal, not just the body's alternatives. -/
+theorem C39_cut_prunes_later_rules (rec : Term → St → Res) (n : Nat) (goal : Term) (s : St)
+    (cl : Clause) (rest : List Clause) (σ' : Subst)
+    (hu : unify n s.σ goal (rename (sfx s.ctr) cl.head) = some (some σ'))
+    (ho : (rec (rename (sfx s.ctr) cl.body) ⟨σ', s.ctr + 1⟩).oof = false)
+    (hc : (rec (rename (sfx s.ctr) cl.body) ⟨σ', s.ctr + 1⟩).cut = true) :
+    clauseLoop rec n goal s (cl :: rest) =
+      ⟨(rec (rename (sfx s.ctr) cl.body) ⟨σ', s.ctr + 1⟩).sols, false,
+       (rec (rename (sfx s.ctr) cl.body) ⟨σ', s.ctr + 1⟩).exc, false⟩ := by
+  simp [clauseLoop, hu, ho, hc]
+
+/-- `(If -> Then ; Else)` inside a body is the interpreter's if-then-else on the translated parts
+(the condition's cut is local, only its first answer is used). -/
+theorem C39_if_then_else (prog : Prog) (n : Nat) (c t e : Body) (m : String) (S0 S : Term) (s : St) :
+    den n prog (.alt (.ifThen c t m) e) S0 S s =
+      iteRes (den n prog c S0 (.var m) s) (fun s' => den n prog t (.var m) S s')
+        (fun _ => den n prog e S0 S s) := by
+  simp only [den]
+
+/-- `\+` and a bare `(If -> Then)` are rejected by the translation (as `dcg_constr/1` does), with
+the culprit in the error term; `(If -> Then)` is accepted as the left side of `;` only (not of `|`). -/
+theorem C39_rejected_constructs (g : Term) (c t e : Body) (m : String) (S0 S : Term) :
+    tr (.naf g) S0 S = .error (.repr (.str "\\+" [g])) ∧
+    tr (.ifThen c t m) S0 S = .error (.repr (.str "->" [c.toTerm, t.toTerm])) ∧
+    tr (.bar (.ifThen c t m) e) S0 S = .error (.repr (.str "->" [c.toTerm, t.toTerm])) :=
+  ⟨rfl, rfl, rfl⟩
+
+/-! ## Pushback -/
+
+/-- `H, PB --> B`: the clause is `H(S0,S) :- B(S0,S1), S = PB ++ S1`. -/
+theorem C39_pushback_rule (f : String) (args pb : List Term) (body : Term) (g1 : Term)
+    (h : tr (ofTerm parseFuel body 3).1 (.var "_S0") (.var "_S2") = .ok g1)
+    (hpb : Term.unconsAll 1000000 (Term.ofList pb) = (pb, .atom "[]")) :
+    rule (.str "-->" [.str "," [.str f args, Term.ofList pb], body]) =
+      .clause ⟨.str f (args ++ [.var "_S0", .var "_S1"]),
+        .str "," [g1, .str "=" [.var "_S1", Term.ofList pb (.var "_S2")]]⟩ := by
+  simp only [rule, nonTerminal, h, hpb, conjG, unifG]
+
+/-- Semantics of a pushback rule body: the answers of `B` between `S0` and `S1`, each followed by the
+identification of the rule's output position `S` with the pushback list in front of `S1` (the
+remainder of `B`).  So `phrase(H, Xs, R)` has `R = PB ++ R1` exactly when `B` accepts with `R1`. -/
+theorem C39_pushback_semantics (prog : Prog) (b : Body) (S0 S1 S g1 : Term) (pb : List Term)
+    (s : St) (r : Res) (htr : tr b S0 S1 = .ok g1) (hok : b.ok = true) :
+    Runs prog (.str "," [g1, .str "=" [S, Term.ofList pb S1]]) s r ↔
+    ∃ n, conjRes (den n prog b S0 S1 s) (fun s' => unifRes n s' S (Term.ofList pb S1)) = r ∧
+      r.oof = false := by
+  obtain ⟨hA, hB⟩ := corr prog b S0 S1 s g1 htr hok
+  constructor
+  · rintro ⟨n, e, o⟩
+    refine ⟨n, ?_, o⟩
+    rw [← e] at o ⊢
+    cases n with
+    | zero => simp [solve] at o
+    | succ n =>
+      have e2 := solve_conj n prog g1 (unifG S (Term.ofList pb S1)) s
+      simp only [conjG, unifG] at e2
+      rw [e2] at o ⊢
+      refine conjRes_congr2 (corr_lift hA n) (fun s' hs => ?_) o
+      have := solve_unif_le n prog S (Term.ofList pb S1) s' hs
+      simp only [unifG] at this hs
+      rw [← this]
+      apply unifRes_mono
+      rw [this]; exact hs
+  · rintro ⟨n, e, o⟩
+    refine ⟨n + (need b + 1) + 1, ?_, o⟩
+    rw [← e] at o ⊢
+    have e2 := solve_conj (n + (need b + 1)) prog g1 (unifG S (Term.ofList pb S1)) s
+    simp only [conjG, unifG] at e2
+    rw [e2]
+    refine conjRes_congr2 (fun h1 => hB n (need b + 1) h1 (by omega)) (fun s' hs => ?_) o
+    have e3 := solve_unif (n + need b) prog S (Term.ofList pb S1) s'
+    simp only [unifG] at e3
+    rw [← Nat.add_assoc, e3]
+    exact unifRes_mono (need b) n s' _ _ hs
+
+/-! ## Non-vacuity: a small grammar run through both semantics -/
+
+/-- `as --> [] | "a", as.`  as the model's `dcg_rule/2` translates it. -/
+def exRule : Term :=
+  .str "-->" [.atom "as", .str "|" [Term.nil, .str "," [Term.ofChars ['a'], .atom "as"]]]
+
+example : rule exRule = .clause ⟨.str "as" [.var "_S0", .var "_S1"],
+    .str ";" [.str "=" [.var "_S0", .var "_S1"],
+      .str "," [.str "=" [.var "_S0", .str "." [.atom "a", .var "_S3"]],
+                .str "as" [.var "_S3", .var "_S1"]]]⟩ := by rfl
+
+def exProg : Prog :=
+  [⟨.str "as" [.var "_S0", .var "_S1"],
+    .str ";" [.str "=" [.var "_S0", .var "_S1"],
+      .str "," [.str "=" [.var "_S0", .str "." [.atom "a", .var "_S3"]],
+                .str "as" [.var "_S3", .var "_S1"]]]⟩]
+
+/-- the body `("a", as, !)` between `"aa"` and `R`. -/
+def exBody : Body := .seq (.terms [.atom "a"]) (.seq (.nonterm (.atom "as")) .cut "_M1") "_M0"
+
+example : exBody.ok = true := by decide
+example : ∃ g, tr exBody (Term.ofChars ['a', 'a']) (.var "R") = .ok g := ⟨_, rfl⟩
+
+/-- the direct semantics terminates on it: one answer (the cut removed the shorter parses), the
+cut flag is set, no fuel problem — so the hypotheses of the core theorem are satisfiable with a
+non-trivial result. -/
+example : ((den 10 exProg exBody (Term.ofChars ['a', 'a']) (.var "R") ⟨[], 0⟩).sols.length,
+           (den 10 exProg exBody (Term.ofChars ['a', 'a']) (.var "R") ⟨[], 0⟩).cut,
+           (den 10 exProg exBody (Term.ofChars ['a', 'a']) (.var "R") ⟨[], 0⟩).oof) =
+          (1, true, false) := by decide
+
+/-- without the cut: two answers (`R = "a"`, `R = []`). -/
+example : (den 10 exProg (.seq (.terms [.atom "a"]) (.nonterm (.atom "as")) "_M0")
+            (Term.ofChars ['a', 'a']) (.var "R") ⟨[], 0⟩).sols.length = 2 := by decide
 
 end Scryer.Dcg
